@@ -187,6 +187,13 @@ def uvl_expr(g, names, depth):
             return (("fl", rng.choice([0.5, 2.25, -1.5, 10.0])), None, None)
         if k == 2:
             return T("'" + rng.choice(["lit", "two words", "ñ"]) + "'")
+        if k == 3:
+            # a qualified feature.attribute reference; either part may need quotes of its own
+            nm = rng.choice(names)
+            at = rng.choice(["price", "size in GB", "ñ", "cost", "1st", "features"])
+            if "." not in nm and '"' not in nm and not nm.startswith("'"):
+                g.count("uvl_choice_model", "qualified-reference")
+                return T(nm + "." + at)
         return T(rng.choice(names))
     k = rng.randrange(7)
     if k < 4:
